@@ -1304,6 +1304,7 @@ fn host_addrs(rng: &mut Rng, h: usize) -> Vec<String> {
 
 const FIXED_PORTS: [u16; 5] = [5000, 5001, 5002, 49152, 49153];
 
+#[derive(Clone)]
 struct Shadow {
     id: u32,
     host: usize,
@@ -1386,7 +1387,7 @@ impl Property for C17 {
         let mut next_id = 1u32;
         let n = rng.usize(3, 12);
         for _ in 0..n {
-            let k = rng.weighted(&[50, 9, 14, 20, 7, 7]);
+            let k = rng.weighted(&[50, 9, 14, 20, 7, 7, 0, 5]);
             match k {
                 0 => {
                     let host = rng.below(nh as u64) as usize;
@@ -1475,6 +1476,32 @@ impl Property for C17 {
                             shadow.push(Shadow { id, host: t.host, proto, ip: ip.clone(), port: PortRef::Fixed(p), conn: false });
                             steps.push(Step::Bind { id, host: t.host, proto, ip, port: p });
                         }
+                    }
+                }
+                7 => {
+                    // connect to a listener on a fixed port, close the connection (one end after the other, the
+                    // second one being the passive closer on a host that then falls silent), close the
+                    // listener and bind its address again
+                    let ls: Vec<usize> = (0..shadow.len()).filter(|&i| shadow[i].proto == Proto::Tcp && !shadow[i].conn && matches!(shadow[i].port, PortRef::Fixed(_))).collect();
+                    if ls.is_empty() || nh < 2 {
+                        continue;
+                    }
+                    let li = *rng.pick(&ls);
+                    let t = shadow[li].clone();
+                    let others: Vec<usize> = (0..nh).filter(|h| *h != t.host).collect();
+                    let host = *rng.pick(&others);
+                    let ip = reach_ip(rng, &hosts, t.host, &t.ip, host);
+                    let id = next_id;
+                    next_id += 1;
+                    steps.push(Step::TcpConnect { id, host, ip, port: t.port.clone(), synack_hold: 0 });
+                    steps.push(Step::Close { sock: id });
+                    shadow.remove(li);
+                    steps.push(Step::Close { sock: t.id });
+                    if let PortRef::Fixed(p) = t.port {
+                        let nid = next_id;
+                        next_id += 1;
+                        shadow.push(Shadow { id: nid, host: t.host, proto: Proto::Tcp, ip: t.ip.clone(), port: PortRef::Fixed(p), conn: false });
+                        steps.push(Step::Bind { id: nid, host: t.host, proto: Proto::Tcp, ip: t.ip.clone(), port: p });
                     }
                 }
                 _ => {
